@@ -51,6 +51,12 @@ func checkC06(c *Ctx) Meta {
 	checkC06Found(c)
 	c.Rule("C06-BRANCH", "the external (plot-key) counter and the internal counter never cross: every consumer of a counter (struct field, putLastIndex/updateChildNum argument, exported hdPath) receives only values produced for the same branch (fetchChildNum result, getChildNum flag, field), producers and consumers being labelled from the DB key they read or write", 10)
 	checkBranchPolarity(c, "C06-BRANCH")
+	// what the loader installs is what was stored under that name (C02-PROV): a reloaded keystore whose
+	// two branch keys or counters are exchanged issues, while locked, plot keys from the change branch
+	c.Rule("C06-PROV", "the loader installs what it read: counters and branch keys of a reloaded keystore come from the records of their own branch (the C02 loader rule, here as the premise of 'the external and the internal branch never cross' for keys issued after a restart or an import)", 10)
+	c.pushAlias("C02-PROV", "C06-PROV")
+	c02Prov(c)
+	c.popAlias()
 	checkKeyConstantsDistinct(c, "C06-BRANCH")
 	checkImportLoopPolarity(c, "C06-BRANCH")
 	checkCountersFinal(c, "C06-BRANCH")
@@ -549,6 +555,11 @@ func affineEqualModuloLoopStep(f *ssa.Function, e1, e2 affineExpr) bool {
 // ---------------------------------------------------------------------------------------------
 
 func checkC05(c *Ctx) Meta {
+	// the transaction discipline as a premise (C12: memory is refreshed only after the commit, one
+	// transaction per operation, no swallowed error): a key stays signable while its keystore is in the store and the wallet is unlocked: an operation that drops keys from memory before its transaction committed loses them on a failed commit
+	c.pushAlias("C12-", "C05-TX-")
+	checkC12(c)
+	c.popAlias()
 	c.Rule("C05-LOOKUP", "SignHash/SignMessage look the signing key up under the address derived from the requested public key and sign the caller's digest (the hash argument, or HashH of the message)", 2)
 	c.Rule("C05-BIND", "the private key cached for an address is re-derived from that address's own (branch, index): the external test selects the external branch key; the recorded path of a new address is the path its key was derived with; every entry is re-derived at unlock; a new key is persisted under its own (branch, index)", 5)
 	c.Rule("C05-GATE", "signing happens only while unlocked and only with a non-nil private key; an unknown key fails before signing", 3)
